@@ -2418,12 +2418,10 @@ func (dsc *dataStoreCommand) setAddWorkerUnlocked(keyName string, memberNames []
 	for _, memberName := range memberNames {
 		_, exists := m.get(memberName)
 		if exists {
-			if flagHasOne(options, SET_NOT_EXIST) {
-				continue
-			}
-		} else {
-			added++
+			// nothing to do: the set is not modified
+			continue
 		}
+		added++
 		m.store(memberName, struct{}{})
 		dsc.keyModifiedUnlocked(keyName)
 	}
